@@ -8,11 +8,14 @@ import (
 	"io"
 	"os"
 	"runtime"
+	"sort"
 	"strings"
+	"unicode/utf8"
 
 	"github.com/gregoryv/mq"
 
 	"verif/mc/bind"
+	"verif/mc/gen"
 	"verif/mc/spec"
 )
 
@@ -190,6 +193,106 @@ type InstrFacts struct {
 		PtrRecv bool   `json:"ptr_recv"`
 	} `json:"api"`
 	ExportedTypes []string `json:"exported_types"`
+	ConstInts     []int64  `json:"const_ints"`
+	ConstStrings  []string `json:"const_strings"`
+}
+
+// Mined holds the constants found in the current tree by the instrumenter,
+// filtered for use as lengths/counts and as field contents. A threshold the
+// code compares a length against (2048, 1<<20, 40, 16) and a magic string it
+// compares a field with are visible in its source, whatever they are; the
+// enumerations add them and their neighbours to their domains.
+var Mined struct {
+	Lens     []int    // n-1, n, n+1 for every integer constant n in 301..4 Mi (0..300 is swept anyway)
+	Counts   []int    // n-1, n, n+1 for every integer constant n in 2..300
+	Strings  []string // token-like string constants (no blanks, no format verbs), at most 32 bytes
+	Loaded   bool
+	RawInts  []int64
+	Novel    int // integer constants not in the pinned tree
+	// NovelLens / NovelCounts: the part of Lens / Counts that stems from
+	// constants the pinned tree does not have (used where every value costs
+	// megabytes or thousands of executions)
+	NovelLens   []int
+	NovelCounts []int
+}
+
+var pinnedConstStrings = []string{"-", "----", "*********", "AUTH", "CONNACK", "CONNECT", "DISCONNECT", "Filters", "MQTT", "PINGREQ", "PINGRESP", "PUBACK", "PUBCOMP", "PUBLISH", "PUBREC", "PUBREL", "QoS", "SUBACK", "SUBSCRIBE", "UNDEFINED", "UNSUBACK", "UNSUBSCRIBE", "UserProperties", "Will", "empty", "filter", "filters", "invalid", "key", "malformed", "no", "unmarshal", "value"}
+
+// the integer constants of the pinned tree (priority only, see LoadMined)
+var pinnedConstInts = []int64{2, 3, 4, 5, 6, 7, 8, 9, 11, 16, 17, 18, 19, 21, 22, 23, 24, 25, 26, 28, 31, 32, 33, 34, 35, 36, 37, 38, 39, 40, 41, 42, 48, 49, 50, 64, 80, 96, 98, 100, 110, 112, 114, 115, 117, 119, 127, 128, 129, 130, 131, 132, 133, 134, 135, 136, 137, 138, 139, 140, 141, 142, 143, 144, 145, 146, 147, 148, 149, 150, 151, 152, 153, 154, 155, 156, 157, 158, 159, 160, 161, 162, 176, 192, 208, 224, 231, 240, 249, 65535, 2097152, 268435455}
+
+// LoadMined fills Mined from the instrumentation report (no report: empty).
+func LoadMined() {
+	if Mined.Loaded {
+		return
+	}
+	Mined.Loaded = true
+	f, err := loadInstrFacts()
+	if err != nil {
+		return
+	}
+	Mined.RawInts = f.ConstInts
+	seenL, seenC := map[int]bool{}, map[int]bool{}
+	// constants the pinned tree does not have come first (only a priority:
+	// where a cap cuts a list, the thresholds a change introduced survive)
+	base := map[int64]bool{}
+	for _, v := range pinnedConstInts {
+		base[v] = true
+	}
+	var ordered []int64
+	for _, v := range f.ConstInts {
+		if !base[v] {
+			ordered = append(ordered, v)
+		}
+	}
+	Mined.Novel = len(ordered)
+	for _, v := range f.ConstInts {
+		if base[v] {
+			ordered = append(ordered, v)
+		}
+	}
+	for _, v := range ordered {
+		for d := int64(-1); d <= 1; d++ {
+			n := int(v + d)
+			switch {
+			case v >= 2 && v <= 300 && n >= 1:
+				if !seenC[n] {
+					seenC[n] = true
+					Mined.Counts = append(Mined.Counts, n)
+					if !base[v] {
+						Mined.NovelCounts = append(Mined.NovelCounts, n)
+					}
+				}
+			case v > 300 && v <= 4<<20:
+				if !seenL[n] {
+					seenL[n] = true
+					Mined.Lens = append(Mined.Lens, n)
+					if !base[v] {
+						Mined.NovelLens = append(Mined.NovelLens, n)
+					}
+				}
+			}
+		}
+	}
+	pinnedS := map[string]bool{}
+	for _, s := range pinnedConstStrings {
+		pinnedS[s] = true
+	}
+	sort.SliceStable(f.ConstStrings, func(i, j int) bool { return !pinnedS[f.ConstStrings[i]] && pinnedS[f.ConstStrings[j]] })
+	for _, s := range f.ConstStrings {
+		if len(s) > 32 || strings.ContainsAny(s, " %\n\t:") || !utf8.ValidString(s) {
+			continue
+		}
+		Mined.Strings = append(Mined.Strings, s)
+	}
+	if len(Mined.Strings) > 60 {
+		Mined.Strings = Mined.Strings[:60]
+	}
+	if len(Mined.Lens) > 90 {
+		Mined.Lens = Mined.Lens[:90]
+	}
+	gen.ExtraLens = Mined.Lens
+	gen.ExtraContents = Mined.Strings
 }
 
 func loadInstrFacts() (*InstrFacts, error) {
